@@ -243,6 +243,9 @@ def check_C14(tier, seed):
     r = tlc("AtomFlow", "MC_AtomFlow_leak.cfg", workers=2, name="mc_atomflow_mut2")
     if r["ok"] or r["violated"] != "NoSecretLeak":
         raise ToolError("AtomFlow with LEAK = TRUE does not violate NoSecretLeak: the model is vacuous")
+    r = tlc("AtomFlow", "MC_AtomFlow_keepnonce.cfg", workers=2, name="mc_atomflow_mut3")
+    if r["ok"] or r["violated"] != "NoReuse":
+        raise ToolError("AtomFlow with KEEPNONCE = TRUE does not violate NoReuse: the model is vacuous")
     walks = tlc_simulate_steps("MCX_ZkAbacus", "MCX_ZkAbacus_sim.cfg", 6 if q else 40, 45 if q else 70, seed, name="sim_C14")
     lines = protodrv.scripts_from_walks(walks, SCALE_BIG)
     rng = random.Random(seed * 7 + 3)
@@ -257,6 +260,10 @@ def check_C14(tier, seed):
     pay = [{"act": "start", "ch": 1, "amt": "4"}, {"act": "mallow", "ch": 1}, {"act": "deliver", "ch": 1}, {"act": "mcomplete", "ch": 1}, {"act": "deliver", "ch": 1}]
     lines += [{"act": "reset"}] + est + [{"act": "close", "ch": 1, "zero_rng": True}]
     lines += [{"act": "reset"}] + est + pay + [{"act": "start", "ch": 1, "amt": "1"}, {"act": "close", "ch": 1, "zero_rng": True}]
+    # boundary amounts in a fixed history: zero-amount payments between ordinary ones, the whole balance either way
+    def payn(a):
+        return [{"act": "start", "ch": 1, "amt": str(a)}] + pay[1:]
+    lines += [{"act": "reset"}] + est + payn(0) + payn(4) + payn(0) + payn(0) + payn(-3) + payn(49) + payn(0) + payn(-55) + [{"act": "close", "ch": 1}]
     d = os.path.join(WORK, "C14_run")
     os.makedirs(d, exist_ok=True)
     sp, tp, ap = os.path.join(d, "script.ndjson"), os.path.join(d, "proto.trace.ndjson"), os.path.join(d, "atoms.trace.ndjson")
@@ -270,7 +277,7 @@ def check_C14(tier, seed):
         for x in events[:v["matched"]]:
             if x["ev"] == "reset": seen = set()
             else: seen |= set(x.get("atoms", []))
-        reused = sorted((set(e.get("atoms", [])) & seen) - set(e.get("allowed", [])))
+        reused = sorted((set(e.get("atoms", [])) & seen) - set(e.get("known", [])))
         leaked = sorted((set(e.get("atoms", [])) & set(e.get("secrets", []))) - set(e.get("allowed", [])))
         raise Violation("C14", f"customer message '{e.get('kind')}' on channel {e.get('ch')}: {len(reused)} atom(s) already in the merchant's view, {len(leaked)} secret scalar(s) of the customer state exposed",
                         {"kind": "atoms", "property": "C14", "seed": seed, "script": lines, "event_index": v["matched"], "reused_atom_ids": reused[:10], "leaked_secret_ids": leaked[:10],
